@@ -42,10 +42,33 @@ class LiquidationMonitor:
         self.chunk_len[symbol] = 1 if kind == 'step' else len(candle)
 
     def match_end(self, c, kind, exchange, symbol, candle):
+        from jesse.store import store
         self.matched = getattr(self, 'matched', {})
         t0 = float(candle[0]) if kind == 'step' else float(candle[0, 0])
         n = 1 if kind == 'step' else len(candle)
         self.matched[symbol] = (t0, t0 + (n - 1) * 60_000)
+        # the minute's (chunk's) orders are matched: from here on an open isolated position whose range
+        # contains its liquidation price has to be force-closed before the strategies run
+        self.owed = getattr(self, 'owed', {})
+        self.owed.pop(symbol, None)
+        p = store.positions.storage.get(f'{exchange}-{symbol}')
+        if p is not None and self.isolated and float(p.qty) != 0:
+            rng = self.own_range(symbol, p.opened_at)
+            if rng is not None:
+                liq = float(p.liquidation_price)
+                if rng[0] <= liq <= rng[1]:
+                    self.owed[symbol] = {'liq': liq, 'range': [rng[0], rng[1]], 'qty': float(p.qty), 'ts': t0}
+
+    def hook(self, c, strat, hook, extra):
+        # strategy steps come after the liquidation checks of every symbol
+        if hook == 'before' and getattr(self, 'owed', None):
+            from jesse.store import store
+            for sym, info in list(self.owed.items()):
+                p = store.positions.storage.get(f'{self.ex}-{sym}')
+                self.owed.pop(sym, None)
+                if p is not None and float(p.qty) == info['qty']:
+                    self.v(c, 'not-liquidated', f"C09|position-survives-minute-containing-liquidation-price|never-checked|fast={int(self.spec['fast'])}|symbols={min(len(self.norm), 2)}",
+                           info)
 
     def own_range(self, symbol, opened_at):
         """range of the minute (step) / of the chunk's minutes the position has lived through (fast),
@@ -74,6 +97,7 @@ class LiquidationMonitor:
         if rng is None:
             return
         lo, hi, i = rng
+        getattr(self, 'owed', {}).pop(symbol, None)
         reg = c.scratch['registry']
         ex = store.exchanges.storage[exchange]
         # "still open AFTER the resting orders of the minute (chunk) have been matched"
